@@ -11,7 +11,8 @@ CLAIMS = {
    "complete schedule is driven through the instrumented hold points and a blocking handler of a real daemon; TLC replays the executed "
    "commands as model actions and compares wait(), peer EOF, restart, repeated shutdown, thread count; serve() is cut at every byte offset. "
    "Also: the daemon thread blocked in the write of a reply (flooding peer), wait() entered before the shutdown requests, wait() while "
-   "other callers are parked between the two steps of their request, eventfd- and pipe-backed exit events, every drop on a guarded helper thread.",
+   "other callers are parked between the two steps of their request, eventfd- and pipe-backed exit events, every drop on a guarded helper "
+   "thread, and the daemon object dropped while its connection is still up.",
    "TLA+ model checking incl. liveness (TLC) + schedule replay over hold points + TLC trace validation"),
  "C12": ("model_checking", "2/C12",
    "VringConc.tla (worker loop x daemon thread micro-steps x guest kicks over level-triggered epoll/eventfd) is model-checked for all "
@@ -63,7 +64,8 @@ CLAIMS = {
    "descriptor identities are compared with the snapshot taken before; TLC judges leak / foreign close / double delivery per trace. "
    "Daemon part: FdFate.tla (kick/call/error slots of the rings; descriptors of five kinds occupy, are replaced, dropped, refused, survive the "
    "connection) is model-checked and every transition replayed on a real daemon; after every letter each descriptor sent so far must be held "
-   "by the daemon iff it occupies a slot, none after the daemon is dropped.",
+   "by the daemon iff it occupies a slot, none after the daemon is dropped. The functional stimuli of the request server and whole "
+   "frontend/server sessions are accounted for in the same way (descriptors the handler hands over for transmission included).",
    "TLC-enumerated fault space replayed on the code + TLC trace validation of descriptor accounting"),
  "C10": ("model_checking", "2/C10",
    "TxnAtomicity.tla is model-checked (all interleavings of 2-3 callers over lock, hold points and peer; safety, deadlock-freedom, "
